@@ -363,6 +363,7 @@ struct WorkerOut {
     viols: Vec<Viol>,
     trace: Vec<String>,
     points: Vec<(&'static str, u64)>,
+    max_len: usize,
 }
 
 impl WorkerOut {
@@ -617,7 +618,9 @@ fn worker<'a>(rd: &Round<'a>, tidx: usize, seed: u64, barrier: &std::sync::Barri
 
 fn check_occupancy(cache: &PageCache, out: &mut WorkerOut, round: u64, when: &str) {
     out.bump("occupancy_checks");
-    for (i, (n, cap)) in cache.verif_shard_occupancy().into_iter().enumerate() {
+    let occ = cache.verif_shard_occupancy();
+    out.max_len = out.max_len.max(occ.iter().map(|x| x.0).sum());
+    for (i, (n, cap)) in occ.into_iter().enumerate() {
         if n > cap {
             out.viol("shard_len_le_capacity", "C35/shard_len_le_capacity/shard_holds_more_than_capacity".into(), json!({"shard": i, "entries": n, "capacity": cap, "when": when, "round": round}));
             break;
@@ -759,6 +762,7 @@ fn run_round(seed: u64, round: u64, quick: bool) -> RoundOut {
             out.add(k, v);
         }
         out.viols.extend(o.viols);
+        out.max_len = out.max_len.max(o.max_len);
         for (n, c) in o.points {
             match points.iter_mut().find(|(m, _)| *m == n) {
                 Some(e) => e.1 += c,
@@ -812,6 +816,9 @@ fn run_round(seed: u64, round: u64, quick: bool) -> RoundOut {
             }
         }
         Err(pn) => out.viol("no_panic", format!("C35/no_panic/empty_panicked@{}", panic_site(&pn)), json!({"panic": pn, "round": round})),
+    }
+    if p.budget_mode == 2 && out.max_len + p.cache_ballast_pages >= 33 {
+        out.bump("rounds_in_which_the_budget_bound_was_reached");
     }
     if let Some(b) = &budget {
         out.bump("budget_rounds");
